@@ -102,6 +102,17 @@ func (r *Ref) ends(e *Expr, i int) bits {
 		out = r.ends(e.Kids[0], i) | 1<<uint(i)
 	case KSuppress:
 		out = r.ends(e.Kids[0], i)
+	case KLTrim:
+		// the whole whitespace run is skipped; the match counts only when the run satisfies the mode
+		if j, ok, _, _ := judgeRun([]byte(r.in), i, e.Mode); ok {
+			out = r.ends(e.Kids[0], j)
+		}
+	case KRTrim:
+		for _, k := range bitsList(r.ends(e.Kids[0], i)) {
+			if j, ok, _, _ := judgeRun([]byte(r.in), k, e.Mode); ok {
+				out |= 1 << uint(j)
+			}
+		}
 	default:
 		out = r.seqEnds(e, 0, i)
 	}
@@ -146,6 +157,9 @@ func seqLenOK(e *Expr, d int) bool {
 }
 
 func seqToken(e *Expr) string {
+	if e.Tok != "" {
+		return e.Tok
+	}
 	switch e.K {
 	case KMany, KMany1:
 		return "MANY"
@@ -285,6 +299,8 @@ func (t *TreeRef) trees(e *Expr, i int) TreeSet {
 		out[fmt.Sprintf("EMPTY@%d", i)] = i
 	case KSuppress:
 		out = t.trees(e.Kids[0], i)
+	case KLTrim, KRTrim:
+		t.Capped = true // trimming is modelled on the span level only
 	default:
 		t.seqTrees(e, 0, i, i, nil, out)
 	}
@@ -306,7 +322,11 @@ func (t *TreeRef) seqTrees(e *Expr, d int, start int, i int, path []string, out 
 	}
 	if !full {
 		if seqLenOK(e, d) {
-			out[fmt.Sprintf("%s@%d..%d[%s]", seqToken(e), start, i, strings.Join(path, " "))] = i
+			if e.RS && d == 1 {
+				out[path[0]] = i // ReturnSingle: the one element itself
+			} else {
+				out[fmt.Sprintf("%s@%d..%d[%s]", seqToken(e), start, i, strings.Join(path, " "))] = i
+			}
 		}
 		return
 	}
@@ -419,8 +439,20 @@ func (v *Validator) valid(e *Expr, n parsley.Node, start int) bool {
 	if !isSeqLike(e.K) {
 		return false
 	}
+	if e.RS {
+		// ReturnSingle: a path of exactly one element is that element's node
+		if first := seqLookup(e, 0); first != nil && seqLenOK(e, 1) && v.Valid(first, n, start) {
+			cur := int(n.ReaderPos()) - v.base
+			if next := seqLookup(e, 1); cur >= start && cur <= len(in) && (next == nil || v.r.ends(next, cur) == 0) {
+				return true
+			}
+		}
+	}
 	nt, ok := n.(*ast.NonTerminalNode)
 	if !ok || nt.Token() != seqToken(e) || int(nt.Pos())-v.base != start {
+		return false
+	}
+	if e.RS && len(nt.Children()) == 1 {
 		return false
 	}
 	cur := start
